@@ -1065,7 +1065,18 @@ func privateParam(li *LockInfo, prm *ssa.Parameter, depth int) bool {
 		nY := 0
 		eachInstr(it, func(i2 ssa.Instruction) {
 			call, ok := i2.(*ssa.Call)
-			if !ok || resolveVal(call.Call.Value) != ssa.Value(yieldP) {
+			if !ok {
+				return
+			}
+			// maps.All(snapshot)(yield): every key / value of the map is yielded
+			if seq, isSeq := call.Call.Value.(*ssa.Call); isSeq && (calleeName(seq) == "maps.All" || calleeName(seq) == "maps.Values") && len(call.Call.Args) == 1 && resolveVal(call.Call.Args[0]) == ssa.Value(yieldP) {
+				nY++
+				if !pointsToFreshCopies(it, seq.Call.Args[0], li) {
+					all = false
+				}
+				return
+			}
+			if resolveVal(call.Call.Value) != ssa.Value(yieldP) {
 				return
 			}
 			nY++
@@ -1118,6 +1129,9 @@ func pointsToFreshCopies(f *ssa.Function, v ssa.Value, li *LockInfo) bool {
 		}
 	case *ssa.Lookup:
 		m = x.X
+	}
+	if _, isMap := v.Type().Underlying().(*types.Map); isMap && m == nil {
+		m = v // asked about the map itself: every value in it
 	}
 	if m == nil {
 		return false
